@@ -426,6 +426,16 @@ def rule_method(ctx):
             if pw is None or not pw["args"] or p0 is None or p1 is None:
                 res.undecided("%s : polynomial-form" % key, "no power in the polynomial arm (fail closed)", fn_loc(fn, body.get("ln")))
                 continue
+            conv = next((y for y in walk(body) if (y.get("k") == "MethodCall" and y["name"] in ("to_i32", "to_i64", "to_u32", "to_usize", "to_isize", "round", "trunc", "floor", "ceil") and local_of(y["recv"]) == p1)
+                         or (y.get("k") == "Cast" and local_of(y["e"]) == p1)), None)
+            if conv is not None and any(y.get("k") == "MethodCall" and y["name"] in ("powi", "pow") for y in walk(body)):
+                exact = any(y.get("k") == "MethodCall" and y["name"] == "fract" for y in walk(body)) or any(
+                    y.get("k") == "Binary" and y["op"] == "==" and p1 in (local_of(y["l"]), local_of(y["r"])) for y in walk(body))
+                if exact:
+                    res.undecided("%s : polynomial-integer-path" % key, "an integer power is taken behind a test of the degree that was not evaluated (fail closed)", fn_loc(fn, conv.get("ln")))
+                else:
+                    res.violate("%s : degree-truncated" % key, "the degree is converted to an integer (`%s`) and used as an integer power: the conversion truncates, so Polynomial(c, 2.5) is computed as degree 2" % r.e(conv)[:30], fn_loc(fn, conv.get("ln")))
+                continue
             expo = local_of(pw["args"][0])
             base_locals = set(y.get("local") for y in walk(pw["recv"]) if y.get("k") == "Path")
             added = any(y.get("k") == "Binary" and y["op"] == "+" and p0 in (local_of(y["l"]), local_of(y["r"])) for y in walk(pw["recv"]))
@@ -912,6 +922,7 @@ def rule_linkage(ctx):
         res.undecided("%s : transform" % key, "no map closure over the similarities (fail closed)", fn_loc(fn))
     else:
         x = next((b["local"] for p_ in clo["params"] for b in pat_bindings(p_)), None)
+        clamped = []
         body = peel_refs(clo["body"])
         while body.get("k") == "Block" and not body["stmts"] and body.get("e") is not None:
             body = peel_refs(body["e"])
@@ -919,19 +930,30 @@ def rule_linkage(ctx):
         def neglog(e):
             """(negated?, local under ln) of an expression"""
             e = peel_refs(e)
-            while e.get("k") == "Block" and not e["stmts"] and e.get("e") is not None:
-                e = peel_refs(e["e"])
+            while e.get("k") == "Block" and e.get("e") is not None:
+                e = peel_refs(e["e"])        # the value of a block is its tail (statements before it only bind locals)
             neg = False
             while e.get("k") == "Unary" and e["op"] == "-":
                 neg = not neg
                 e = peel_refs(e["e"])
             if e.get("k") == "MethodCall" and e["name"] == "ln":
                 return neg, local_of(e["recv"])
+            # a clamp around the transform: max(-ln x, 0), (-ln x).max(0), .abs(), .clamp(..)
+            inner = None
+            if e.get("k") == "Call" and callee_name(c, e) in ("max", "min", "clamp") and e["args"]:
+                inner = next((a for a in e["args"] if any(z.get("k") == "MethodCall" and z["name"] == "ln" for z in walk(a))), None)
+            if e.get("k") == "MethodCall" and e["name"] in ("max", "min", "clamp", "abs") and any(z.get("k") == "MethodCall" and z["name"] == "ln" for z in walk(e["recv"])):
+                inner = e["recv"]
+            if inner is not None:
+                clamped.append(e)
+                return neglog(inner)
             return None
         if body.get("k") == "If" and body.get("else") is not None:
             t_, e_ = neglog(body["then"]), neglog(body["else"])
             cnd = strip(body["c"])
-            if t_ is None or e_ is None or cnd.get("k") != "Binary":
+            if clamped:
+                res.violate("%s : dissimilarity-clamped" % key, "the -ln transform is passed through `%s`: dissimilarities of similarities above one (linear and polynomial kernels) are cut off, so averaging linkages merge at other levels" % r.e(clamped[0])[:50], fn_loc(fn, clamped[0].get("ln")))
+            elif t_ is None or e_ is None or cnd.get("k") != "Binary":
                 res.undecided("%s : transform-form" % key, "branches are not `±v.ln()` (fail closed)", fn_loc(fn, body.get("ln")))
             elif not t_[0] or not e_[0]:
                 res.violate("%s : log-not-negated" % key, "a branch of the transform is `ln` without the minus: similarities in (0, 1] give negative or reversed dissimilarities", fn_loc(fn, body.get("ln")))
@@ -950,7 +972,9 @@ def rule_linkage(ctx):
                     res.undecided("%s : floor" % key, "floor test not classified (fail closed)", fn_loc(fn, body.get("ln")))
         else:
             nl = neglog(body)
-            if nl is None:
+            if clamped:
+                res.violate("%s : dissimilarity-clamped" % key, "the -ln transform is passed through `%s`" % r.e(clamped[0])[:50], fn_loc(fn, clamped[0].get("ln")))
+            elif nl is None:
                 res.undecided("%s : transform-form" % key, "`%s` (fail closed)" % r.e(body)[:50], fn_loc(fn, body.get("ln")))
             elif not nl[0]:
                 res.violate("%s : log-not-negated" % key, "the transform is `ln` without the minus", fn_loc(fn, body.get("ln")))
@@ -1119,9 +1143,10 @@ def rule_views(ctx):
 
 
 def rules(tier):
-    from . import carry, precision, c13
+    from . import carry, precision, c13, c04
     CR = {"linfa_kernel", "linfa_hierarchical"}
-    return [rule_entries, rule_method, rule_adjacency, rule_stop, rule_merge, rule_labels, rule_linkage, rule_views, c13.rule_kernel,
+    return [c04.make_carry_rule("R-C06-carry", {"HierarchicalCluster", "KernelParams"}, 3), c04.make_setter_value_rule("R-C06-setter", {"HierarchicalCluster", "KernelParams"}, 3),
+            rule_entries, rule_method, rule_adjacency, rule_stop, rule_merge, rule_labels, rule_linkage, rule_views, c13.rule_kernel,
             carry.make_clone_rule("R-C06-clone", CR, 6), carry.make_setter_rule("R-C06-override", CR, 4),
             carry.make_ctor_rule("R-C06-ctor", CR, 1),
             precision.make_rule("R-C06-precision", lambda f: f["d"]["krate"] in CR, 40, "linfa-kernel and linfa-hierarchical")]
